@@ -36,6 +36,21 @@ def check_spec(spec, res, runner_name):
         res.fail(kind="oracle", function="runner.run (gated program)", what=pb, runner=runner_name, replay={"harness": "C03", "spec": spec, "runner": runner_name})
 
 
+def check_machine(spec, res, runner_name):
+    set_case("C03", spec, runner_name)
+    run = run_sync if runner_name == "sync" else run_async
+    try:
+        g, log = flow.build_machine(spec)
+    except Exception as e:  # noqa: BLE001 - random tables can describe graphs hypergraph legitimately rejects
+        return
+    out = run(g, {"phase": spec["phases"][0], "sev": 1}, max_iterations=40)
+    res.case(repr((spec, runner_name)), nontrivial=len(log.decisions) > 1, sample=None)
+    if out["status"] != "completed":
+        return  # e.g. InfiniteLoopError on a table that never reaches 'done' through an open path: not what this oracle judges
+    for pb in flow.gate_trace_violations(g, log):
+        res.fail(kind="oracle", function="get_ready_nodes/_get_activated_nodes", what=pb, runner=runner_name, replay={"harness": "C03", "spec": spec, "runner": runner_name})
+
+
 def run(tier, seed, functions):
     n = 150 if tier == "quick" else 3000
     res = Result("C03", "random gated DAG programs: ifelse / single-target route / multi-target route, END / None / fallback decisions, open and closed-by-default gates, "
@@ -46,6 +61,10 @@ def run(tier, seed, functions):
         spec = flow.gen_gated(rng)
         check_spec(spec, res, "sync")
         check_spec(spec, res, "async")
+    for _ in range(n):
+        spec = flow.gen_machine(rng)
+        check_machine(spec, res, "sync")
+        check_machine(spec, res, "async")
     return res
 
 
@@ -53,7 +72,7 @@ def replay(rep):
     from harness.monitor import Monitors
     mon = Monitors(only={rep["monitor"]}).arm() if rep.get("monitor") else None
     res = Result("C03", "", {})
-    check_spec(rep["spec"], res, rep["runner"])
+    (check_machine if rep["spec"].get("family") == "machine" else check_spec)(rep["spec"], res, rep["runner"])
     if mon:
         mon.disarm()
         return [f["what"] for f in mon.failures]
